@@ -1,0 +1,168 @@
+// Verification contracts (comment-only, compiled only with the "verif" build tag; read by /verif/govc).
+
+//go:build verif
+// +build verif
+
+package ucon
+
+// Contracts for votes_mgr.go and the escalation path of voter.go — property C03:
+// "Votes escalate and blocks commit only on a counted quorum; commits always verify".
+//
+// Clause 1 (vote statistics, exact deltas). The weight recorded for a block hash changes only when a vote enters or
+// leaves the per-hash vote table, and then by exactly that vote's weight:
+//   * newVote adds weight only for an address that has no entry yet (a repeated or second vote adds nothing);
+//   * addrVoteInfo, on a vote of the same address for a DIFFERENT hash, marks the address as double-voted and removes
+//     exactly its recorded weight from the hash it had voted for (an equivocator contributes no weight);
+//   * every other hash's count and table are untouched.
+// By induction over the operations, voteCounts[h] is the sum of the weights in votesInfo[h].
+
+//@ spec func c03WF(v: *VoteSta) bool = v.addressVotes != nil && v.votesInfo != nil && v.voteCounts != nil
+
+//@ func (*VoteSta).newVote props C03
+//@ panics none
+//@ requires [nonnil] v != nil && vote != nil && c03WF(v)
+//@ let had = v.addressVotes[address] != nil
+//@ modifies mapof(v.addressVotes), mapof(v.votesInfo), mapof(v.voteCounts), mapof(v.votesInfo[hash])
+//@ ensures [first-vote-counts] !had ==> result0 && v.voteCounts[hash] == wrap32(old(v.voteCounts[hash]) + vote.Votes) &&
+//@                             in(hash, v.votesInfo) && v.votesInfo[hash] != nil && v.votesInfo[hash][address] == vote
+//@ ensures [first-vote-recorded] !had ==> v.addressVotes[address] != nil && fresh(v.addressVotes[address]) &&
+//@                             v.addressVotes[address].Hash == hash && !v.addressVotes[address].DoubleVoted
+//@ ensures [repeat-adds-nothing] had ==> !result0 && v.voteCounts[hash] == old(v.voteCounts[hash]) &&
+//@                             mapval(v.voteCounts) == old(mapval(v.voteCounts)) && mapdom(v.voteCounts) == old(mapdom(v.voteCounts)) &&
+//@                             mapval(v.votesInfo) == old(mapval(v.votesInfo)) && mapdom(v.votesInfo) == old(mapdom(v.votesInfo)) &&
+//@                             mapval(v.addressVotes) == old(mapval(v.addressVotes)) && mapdom(v.addressVotes) == old(mapdom(v.addressVotes))
+//@ ensures [returns-count]     result1 == v.voteCounts[hash]
+//@ ensures [other-hashes]      forall h: common.Hash :: h != hash ==> v.voteCounts[h] == old(v.voteCounts[h])
+//@ ensures [other-addresses]   forall a: common.Address :: a != address ==> v.addressVotes[a] == old(v.addressVotes[a])
+//@ ensures [same-maps]         v.addressVotes == old(v.addressVotes) && v.votesInfo == old(v.votesInfo) && v.voteCounts == old(v.voteCounts)
+
+//@ effectfree github.com/youchainhq/go-youchain/consensus/ucon.CompareCommonHash
+
+// CompareCommonHash(a, b) == 0 iff a == b (bytes.Compare on the two arrays): ASSUMED specification of the helper.
+//@ func CompareCommonHash props C03
+//@ nobody
+//@ pure
+//@ ensures (result == 0) == (p1 == p2)
+
+//@ func (*VoteSta).addrVoteInfo props C03
+//@ panics none
+//@ requires [nonnil] v != nil && c03WF(v)
+//@ modifies v.addressVotes[address].DoubleVoted, mapof(v.voteCounts), mapof(v.votesInfo[v.addressVotes[address].Hash])
+//@ let st0 = v.addressVotes[address]
+//@ let equivocates = st0 != nil && !st0.DoubleVoted && st0.Hash != hash && v.vtype != NextIndex
+//@ let oldHash = st0.Hash
+//@ let oldVote = v.votesInfo[oldHash][address]
+//@ requires [nonnil-inner] st0 != nil && in(st0.Hash, v.votesInfo) ==> v.votesInfo[st0.Hash] != nil
+//@ ensures [not-voted]   st0 == nil ==> result0 == addrNotVoted && result1 == nil
+//@ ensures [double]      st0 != nil && old(st0.DoubleVoted) ==> result0 == addrDoubleVoted && st0.DoubleVoted
+//@ ensures [exists]      st0 != nil && !old(st0.DoubleVoted) && (old(st0.Hash) == hash || v.vtype == NextIndex) ==> result0 == addrVoteExist
+//@ ensures [equivocator-flagged] equivocates ==> result0 == addrDifferentVote && st0.DoubleVoted
+//@ ensures [equivocator-weight-removed] equivocates && oldVote != nil ==>
+//@                         v.voteCounts[oldHash] == wrap32(old(v.voteCounts[oldHash]) - old(oldVote.Votes)) && v.votesInfo[oldHash][address] == nil
+//@ ensures [no-equivocation-no-change] !equivocates ==>
+//@                         mapval(v.voteCounts) == old(mapval(v.voteCounts)) && mapdom(v.voteCounts) == old(mapdom(v.voteCounts)) &&
+//@                         (st0 != nil ==> st0.DoubleVoted == old(st0.DoubleVoted))
+//@ ensures [other-hashes] forall h: common.Hash :: (st0 == nil || h != oldHash) ==> v.voteCounts[h] == old(v.voteCounts[h])
+
+// ---------------------------------------------------------------------------------------------------------
+// Clause 2: escalation and commit are reachable only behind a counted quorum (typestate of judgeVoteCount).
+
+// The quorum of a committee size: uint32(float64(threshold) * fraction) — the floating-point product is not evaluated
+// (named, uninterpreted); OverThreshold is specified as "count reaches that quorum". ASSUMED specification (`nobody`).
+//@ spec func c03Quorum(threshold: int, isPos: bool) int
+//@ func OverThreshold props C03
+//@ nobody
+//@ pure
+//@ ensures result == (count >= c03Quorum(threshold, isPos))
+
+// Per-hash record "a quorum of this vote type was counted" (VoteStatus).
+//@ spec func c03Status(vs: *VoteStatus, t: int) bool = vs.chamber != nil && vs.chamber[t]
+
+//@ func (*VoteStatus).update props C03
+//@ panics none
+//@ requires vs != nil
+//@ modifies vs.chamber, vs.house, mapof(vs.chamber), mapof(vs.house)
+//@ ensures [chamber] validatorType == params.KindChamber ==> c03Status(vs, voteType) &&
+//@                   (forall t: int :: t != voteType ==> c03Status(vs, t) == old(c03Status(vs, t)))
+//@ ensures [other-kind] validatorType != params.KindChamber && validatorType != params.KindHouse ==> (forall t: int :: c03Status(vs, t) == old(c03Status(vs, t)))
+
+//@ func (*VoteStatus).status props C03
+//@ panics none
+//@ requires vs != nil
+//@ pure
+//@ ensures [chamber] validatorType == params.KindChamber ==> result == c03Status(vs, voteType)
+
+//@ effectfree github.com/youchainhq/go-youchain/consensus/ucon.VoteTypeToString github.com/youchainhq/go-youchain/params.ValidatorKindToString
+//@ effectfree (github.com/youchainhq/go-youchain/common.Hash).String (*github.com/youchainhq/go-youchain/event.TypeMux).AsyncPost
+
+// vote / commit / setMarkedBlock as seen from judgeVoteCount: heap havocked (thin, ASSUMED frames: they are large and
+// recursive; their own C02 contracts concern the persist-before-gossip discipline).
+//@ func (*Voter).vote props C03
+//@ nobody
+//@ modifies all
+//@ func (*Voter).commit props C03
+//@ nobody
+//@ modifies all
+//@ func (*Voter).setMarkedBlock props C03
+//@ nobody
+//@ modifies all
+
+//@ func (*Voter).judgeVoteCount props C03
+//@ requires [nonnil] v != nil && v.voteOver != nil
+//@ modifies all
+//@ assert before call (*VoteStatus).update: [recorded-only-on-quorum] count >= c03Quorum(threshold, voteType != Certificate) && a1 == voteType && a2 == validatorType
+//@ assert before call (*Voter).vote: [escalate-only-on-quorum]
+//@        validatorType == params.KindChamber && count >= c03Quorum(threshold, true) && a2 == blockHash &&
+//@        ((a1 == Precommit && voteType == Prevote && !v.precommitted) ||
+//@         (a1 == Certificate && voteType == Precommit && v.shouldCert && !v.certificated))
+//@ assert before call (*Voter).commit: [commit-only-on-quorum]
+//@        validatorType == params.KindChamber && a1 == blockHash && !v.committed &&
+//@        ((voteType == Precommit && count >= c03Quorum(threshold, true) && (!v.shouldCert || c03Status(voteStatus, Certificate))) ||
+//@         (voteType == Certificate && count >= c03Quorum(threshold, false) && v.shouldCert == v.shouldCert && c03Status(voteStatus, Precommit)))
+
+// ---------------------------------------------------------------------------------------------------------
+// Clause 3: a received vote is counted only for its recovered signer, after that signer's sortition credential for
+// exactly this round / index / step / seat count was verified; the count judged is the one returned for that block.
+
+//@ ghost var c03SignerOK: bool
+//@ ghost var c03Signer: common.Address
+//@ ghost var c03SortOK: bool
+//@ ghost var c03SortVotes: int
+
+//@ func (*Voter).getAddrFromVote props C03
+//@ nobody
+//@ pure
+//@ func dynamic:getStakeFn
+//@ trusted
+//@ pure
+//@ func dynamic:VerifySortitionFn
+//@ trusted
+//@ pure
+//@ func (*VotesWrapperList).GetWrapper props C03
+//@ nobody
+//@ pure
+// NewWrapper (contains a shifting loop): ASSUMED frame — it writes only the wrapper list and the statistics objects it resets.
+//@ func (*VotesWrapperList).NewWrapper props C03
+//@ nobody
+//@ modifies all(VotesWrapperList.wrappers), all(VotesWrapperList.contexts), all(elems(*VotesWrapper)), all(elems(RoundIndexHash)),
+//@          all(VotesManager.round), all(VotesManager.roundIndex), all(VoteSta.votesInfo), all(VoteSta.voteCounts), all(VoteSta.addressVotes)
+// (VotesWrapper.addrVoteInfo / newVote and VotesManager.* are loop-free wrappers: inlined down to the VoteSta contracts above.)
+//@ func (*VoteSta).getVotesInfo props C03
+//@ nobody
+//@ pure
+
+//@ func (*Voter).processVoteMsg props C03
+//@ opt abstract-slices
+//@ requires [nonnil] v != nil
+//@ modifies all, c03SignerOK, c03Signer, c03SortOK, c03SortVotes
+//@ ghost after call (*Voter).getAddrFromVote: c03SignerOK := ret2 == nil
+//@ ghost after call (*Voter).getAddrFromVote: c03Signer := ret1
+//@ assert before call dynamic:consensus/ucon.VerifySortitionFn: [credential-binds-message]
+//@        c03SignerOK && a0 == pubKey && a1.Round == msg.Round && a1.RoundIndex == msg.RoundIndex && a1.Step == voteType && a1.Votes == vote.Votes && a1.Proof == vote.Proof
+//@ ghost after call dynamic:consensus/ucon.VerifySortitionFn: c03SortOK := ret == nil
+//@ ghost after call dynamic:consensus/ucon.VerifySortitionFn: c03SortVotes := a1.Votes
+//@ assert before call (*VotesWrapper).newVote: [count-only-verified-signer] c03SignerOK && c03SortOK && a4 == c03Signer
+//@ assert before call (*VotesWrapper).newVote: [signer-is-sender] c03Signer == ev.Msg.addr
+//@ assert before call (*VotesWrapper).newVote: [counted-for-the-message] a1 == msg.Round && a2 == msg.RoundIndex && a3 == voteType && a6 == msg.BlockHash
+//@ assert before call (*VotesWrapper).newVote: [counted-weight-is-verified-weight] a7.Votes == c03SortVotes
+//@ assert before call (*Voter).judgeVoteCount: [judge-the-counted-block] a2 == totalCount && a4 == msg.BlockHash && a1 == voteType && add
